@@ -463,6 +463,7 @@ def strip(a):
 # C18: background merge and sync follow the configured policy
 
 def run_c18(rep, tier, seed):
+    config_stage(rep, random.Random(seed * 77 + 1), 40 if tier == "quick" else 400, os.path.join(WORK, "run-cfg-" + "run_c18"))
     rng = random.Random(seed * 1000 + 18)
     root = os.path.join(WORK, "run-C18")
     nv = 0
